@@ -9,9 +9,17 @@ RULE = ('Random RP66V1 log passes from an independent encoder (tdv.gen.logpass o
         'with 1..3 frame types of 1..6 channels in the fixed-length numeric codes FSINGL, ISINGL, VSINGL (zero fraction), FDOUBL, SSHORT..ULONG, '
         'dimensions [1], [k], [j,k] (rarely [i,j,k]; first channel scalar), 1..60 frames per type, data records of the types interleaved, '
         'empty data records, encrypted records and further sets in between, frame numbers with offsets and gaps, random physical layout; '
-        'every recorded element derives from a file-wide counter (unique in the wide codes).  On each indexed file a history of 1..8 '
-        'populate_frame_array calls per logical file: frame array x selector {None, Slice(start,stop,step) with negative/None parts, Sample(n)} '
-        '(>= 1 frame selected) x channels {None, random subset, subset without the first channel, names not present, empty set}.  '
+        'every recorded element derives from a file-wide counter (unique in the wide codes), 2% of the IEEE / integer elements hold an extreme '
+        'value instead (denormal, largest finite, infinities, most negative integer ...).  Rarer shapes: channels of 300 / 1024 / 4x128 elements, rank 4, '
+        'dimension lists [3,1] [1,1] [1,7,1]; a frame type of 100..140 channels; one of 300..600 frames; frame numbers running over 127/128 and '
+        '16383/16384; the same channel identifier in two frame types (different channel objects); in a third of the files the object names '
+        'usual in practice (60B, 10B, DEPT, GR ...; same origin and copy number) so that logical files and files share whole object names.  '
+        'On each indexed file one history of populate_frame_array calls (1..8 per logical file) spread at random over all its logical '
+        'files and, for 15% of the files, over the logical files of a second index kept open on the previous file: frame array x selector '
+        '{None, Slice(start,stop,step) with negative/None parts, steps >= the frame count and magnitudes up to 10**20, Sample(n) up to 2**63; '
+        '30% of the calls reuse a selector object used earlier in the history, also on a frame type of another length} '
+        '(>= 1 frame selected) x channels {None, random subset, subset without the first channel, names not present, empty set, frozenset; '
+        '40% through one set object edited in place}.  '
         'A case is one file with its history (distinct by bytes + history); non-trivial = >= 2 calls of different shape on one '
         'index and a multi-dimensional channel.')
 ASSUMPTIONS = [
@@ -67,23 +75,45 @@ def sample_definition_ok(idxs, k, n):
     return None
 
 
+HUGE = (10 ** 9, 2 ** 31, 2 ** 63, 10 ** 20)
+
+
 def random_selector(rng, S, n):
-    """-> (selector or None, description, expected indices)"""
+    """-> (selector or None, description, expected indices, slice parameters or None)"""
     k = rng.random()
     if k < 0.2:
-        return None, 'None', list(range(n))
+        return None, 'None', list(range(n)), None
     if k < 0.7:
         for _ in range(12):
             lim = n + 2
             a = rng.choice([None, rng.randrange(-lim, lim + 1), rng.randrange(-lim, lim + 1)])
             b = rng.choice([None, rng.randrange(-lim, lim + 1), rng.randrange(-lim, lim + 1)])
             c = rng.choice([None, 1, 2, 3, rng.randrange(1, max(2, n)), rng.randrange(1, max(2, n // 2 + 1)), -1, -2, -rng.randrange(1, max(2, n))])
+            if rng.random() < 0.08:
+                # magnitudes far beyond the frame count (a slice means what Python's slice means for any integers), steps >= the count
+                h = rng.choice(HUGE)
+                a = rng.choice([a, h, -h, None])
+                b = rng.choice([b, h, -h, None])
+                c = rng.choice([c, n, n + 1, -n, -(n + 1), h, -h])
             idxs = list(range(n))[a:b:c]
             if idxs:
-                return S.Slice(a, b, c), 'Slice(%r,%r,%r)' % (a, b, c), idxs
-        return S.Slice(None, None, None), 'Slice(None,None,None)', list(range(n))
+                return S.Slice(a, b, c), 'Slice(%r,%r,%r)' % (a, b, c), idxs, (a, b, c)
+        return S.Slice(None, None, None), 'Slice(None,None,None)', list(range(n)), (None, None, None)
     kk = rng.choice([1, 2, n, n + 1, rng.randrange(1, n + 4), rng.randrange(1, n + 4)])
-    return S.Sample(kk), 'Sample(%d)' % kk, None
+    if rng.random() < 0.05:
+        kk = rng.choice(HUGE[:3])
+    return S.Sample(kk), 'Sample(%d)' % kk, None, None
+
+
+def reuse_selector(rng, S, pool, n):
+    """One of the selector objects used earlier on this index (possibly on a frame type of another length) -> as random_selector, or None."""
+    sel, desc, params = rng.choice(pool)
+    if params is None:
+        return sel, desc, None
+    idxs = list(range(n))[params[0]:params[1]:params[2]]
+    if not idxs:
+        return None
+    return sel, desc, idxs
 
 
 def random_channels(rng, idents):
@@ -100,6 +130,8 @@ def random_channels(rng, idents):
         s = set(rng.sample(idents, rng.randrange(0, len(idents) + 1)))
         s |= {rng.choice(['NOPE', '', 'X' * 9, idents[0].lower() + '?', 'DEPT '])}
         return s, 'subset+unknown-names'
+    if k < 0.95:
+        return frozenset(rng.sample(idents, rng.randrange(0, len(idents) + 1))), 'frozenset'
     return set(), 'empty-set'
 
 
@@ -107,6 +139,7 @@ class Run:
     def __init__(self, ctx):
         self.ctx, self.rec, self.rng = ctx, ctx.rec, ctx.rng
         self.nviol = 0
+        self.sel_pool = []          # selector objects used on the open index (indexes) so far
 
     def violation(self, monitor, kind, msg, witness, exc=None):
         self.nviol += 1
@@ -170,7 +203,16 @@ class Run:
         rec, rng = self.rec, self.rng
         n = len(ft.frames)
         idents = [c.ident for c in ft.channels]
-        sel, sel_desc, idxs = random_selector(rng, S, n)
+        got = reuse_selector(rng, S, self.sel_pool, n) if (self.sel_pool and rng.random() < 0.3) else None
+        if got is not None:
+            sel, sel_desc, idxs = got
+            rec.cls('selector-object:used-before-on-this-index')
+        else:
+            sel, sel_desc, idxs, params = random_selector(rng, S, n)
+            if sel is not None:
+                self.sel_pool.append((sel, sel_desc, params))
+                if len(self.sel_pool) > 6:
+                    del self.sel_pool[0]
         chs, chs_kind = random_channels(rng, idents)
         if sel is not None and idxs is None:
             idxs = sel.indices(n)
@@ -185,7 +227,7 @@ class Run:
         history.append(op)
         w = dict(base, history=list(history), call=op, indices=idxs[:100])
         chs_arg = chs
-        if chs is not None and rng.random() < 0.4:
+        if chs is not None and not isinstance(chs, frozenset) and rng.random() < 0.4:
             # the caller keeps one set object and edits it between calls (as a command line tool would): same object, new content
             shared = self.__dict__.setdefault('_shared_sets', {}).setdefault(id(fa), set())
             shared.clear()
@@ -264,33 +306,67 @@ class Run:
                     break
 
 
-def run_file(run, max_frames):
-    import numpy as np  # noqa
+KNOBS = {'FIRST_CHANNEL_ARRAY_P': 0.08,     # some unindexed frame types whose first channel is an array (also > 273 bytes)
+         'BIG_DIMS_P': 0.04,                # waveform-sized, rank 4 and degenerate ([3,1], [1,1]) dimension lists
+         'SPECIAL_VALUES_P': 0.02,          # extreme IEEE / integer values among the counter pattern
+         'SHARE_IDENT_P': 0.15,             # the same channel identifier text in two frame types (different channel objects)
+         'WIDE_TYPE_P': 0.01, 'LONG_TYPE_P': 0.01,
+         'OTHER_IFLR_P': 0.03,              # records that are not frame data among the frames: unformatted data, end of data, private types
+         'NUMBERING_STARTS': (1, 1, 1, 1, 100, 127, 16000, 16370)}     # 16370: the frame number grows from a 2 to a 4 byte UVARI
+
+
+COMMON_NAMES = [b'DEPT', b'TIME', b'TDEP', b'GR', b'CALI', b'RHOB', b'NPHI', b'SP', b'ILD', b'DT', b'TENS', b'ETIM', b'WF1', b'WF2']
+COMMON_FRAME_NAMES = [b'60B', b'10B', b'1B', b'2000T']
+
+
+def make_file(run, max_frames):
+    """One generated file -> dict(data, fm, model, base, classes, multi_dim)."""
     from tdv.gen import dlis, logpass
-    from TotalDepth.RP66V1.core import LogicalFile
-    from TotalDepth.common import Slice as S
-    ctx, rec, rng = run.ctx, run.rec, run.rng
-    logpass.FIRST_CHANNEL_ARRAY_P = 0.08      # some unindexed frame types whose first channel is an array (also > 273 bytes)
-    lrs, model = logpass.random_logpass_file(rng, max_frames=max_frames)
-    data, fm = dlis.write_file_safe(rng, lrs)
-    if any(fm.records[i].lr.encrypted != lrs[i].encrypted for i in range(len(lrs))):
-        # the layout cannot hold an encrypted cut (the writer fell back to plain records, which random bodies are not): no encrypted records
-        lrs, model = logpass.random_logpass_file(rng, max_frames=max_frames, encrypted=False)
+    rec, rng = run.rec, run.rng
+    knobs = dict(KNOBS)
+    common = rng.random() < 0.35
+    if common:
+        # frame types and channels named as in practice: the same object names (origin, copy, identifier) in every logical file and
+        # in many files (which the populate calls then address side by side)
+        knobs.update(NAME_POOL=list(COMMON_NAMES), FRAME_NAME_POOL=list(COMMON_FRAME_NAMES), NAME_POOL_OC=(rng.choice([0, 1, 1]), 0))
+    saved = {k: getattr(logpass, k) for k in knobs}
+    for k, v in knobs.items():
+        setattr(logpass, k, v)
+    try:
+        lrs, model = logpass.random_logpass_file(rng, max_frames=max_frames, max_logical_files=3 if common else 2)
         data, fm = dlis.write_file_safe(rng, lrs)
-        rec.add('files_regenerated_without_encrypted')
+        if any(fm.records[i].lr.encrypted != lrs[i].encrypted for i in range(len(lrs))):
+            # the layout cannot hold an encrypted cut (the writer fell back to plain records, which random bodies are not): no encrypted records
+            lrs, model = logpass.random_logpass_file(rng, max_frames=max_frames, encrypted=False)
+            data, fm = dlis.write_file_safe(rng, lrs)
+            rec.add('files_regenerated_without_encrypted')
+    finally:
+        for k, v in saved.items():
+            setattr(logpass, k, v)
     rec.add('bytes_generated', len(data))
     base = {'layout': fm.layout, 'file_bytes': len(data),
             'frame_types': [['%s: %d frames, %d empty records, channels %s' % (
                 ft.name[2].decode('ascii'), len(ft.frames), ft.empty_records,
-                ' '.join('%s/code%d/%s' % (c.ident, c.rc, 'x'.join(map(str, c.dims))) for c in ft.channels)) for ft in mlf.frame_types]
+                ' '.join('%s/code%d/%s' % (c.ident, c.rc, 'x'.join(map(str, c.dims))) for c in ft.channels[:12])) for ft in mlf.frame_types]
                 for mlf in model.logical_files]}
-    histories = []
     classes = set(fm.classes())
-    multi_dim = any(len(c.dims) > 1 or c.dims != (1,) for mlf in model.logical_files for ft in mlf.frame_types for c in ft.channels)
+    ftnames = [ft.name for mlf in model.logical_files for ft in mlf.frame_types]
+    if len(set(ftnames)) < len(ftnames):
+        classes.add('same-frame-type-name-in-two-logical-files')
+    chans = [(ft, c) for mlf in model.logical_files for ft in mlf.frame_types for c in ft.channels]
+    if len(model.logical_files) > 1 and len({c.name for _, c in chans}) < len(chans):
+        classes.add('same-channel-name-in-two-logical-files')
+    multi_dim = any(c.dims != (1,) for _, c in chans)
     if multi_dim:
         classes.add('multi-dimensional-channel')
-    if any(len(c.dims) >= 2 for mlf in model.logical_files for ft in mlf.frame_types for c in ft.channels):
+    if any(len(c.dims) >= 2 for _, c in chans):
         classes.add('rank>=2-channel')
+    if any(len(c.dims) >= 4 for _, c in chans):
+        classes.add('rank>=4-channel')
+    if any(c.count >= 256 for _, c in chans):
+        classes.add('channel>=256-elements')
+    if any(len(c.dims) >= 2 and c.dims[-1] == 1 for _, c in chans):
+        classes.add('dimension-list-ending-in-1')
     if any(len(mlf.frame_types) > 1 for mlf in model.logical_files):
         classes.add('interleaved-frame-types')
     if any(ft.empty_records for mlf in model.logical_files for ft in mlf.frame_types):
@@ -300,51 +376,86 @@ def run_file(run, max_frames):
     if len(model.logical_files) > 1:
         classes.add('multi-logical-file')
     for mlf in model.logical_files:
+        seen = {}
         for ft in mlf.frame_types:
+            if len(ft.channels) >= 100:
+                classes.add('frame-type>=100-channels')
+            if len(ft.frames) >= 300:
+                classes.add('frame-type>=300-frames')
+            if ft.frames and ft.frames[0].number <= 16383 < ft.frames[-1].number:
+                classes.add('frame-numbers-cross-16383/16384')
+            if ft.frames and ft.frames[0].number <= 127 < ft.frames[-1].number:
+                classes.add('frame-numbers-cross-127/128')
             for c in ft.channels:
                 classes.add('code:%d' % c.rc)
+                if seen.setdefault(c.ident, ft) is not ft:
+                    classes.add('channel-identifier-in-two-frame-types')
+    return {'data': data, 'fm': fm, 'model': model, 'base': base, 'classes': classes, 'multi_dim': multi_dim}
+
+
+def run_file(run, cur, other=None):
+    """Index the file, then one history of populate calls spread at random over all its logical files (they share one reader and
+    one file cursor) - and, when `other` is given, over the logical files of a second index kept open on that file at the same time."""
+    import numpy as np  # noqa
+    from TotalDepth.RP66V1.core import LogicalFile
+    from TotalDepth.common import Slice as S
+    ctx, rec, rng = run.ctx, run.rec, run.rng
+    data, fm, model, base = cur['data'], cur['fm'], cur['model'], cur['base']
+    classes = set(cur['classes'])
+    history = []
+    units = []
+    run.sel_pool = []
+    run.__dict__.pop('_shared_sets', None)
     shapes_differ = False
     try:
-        with LogicalFile.LogicalIndex(io.BytesIO(data)) as li:
-            if len(li.logical_files) != len(model.logical_files):
-                run.violation('structure_vs_model', 'logical-files', '%d logical files, %d encoded' % (len(li.logical_files), len(model.logical_files)),
-                              dict(base, data=data))
-            else:
-                for lf, mlf in zip(li.logical_files, model.logical_files):
-                    if not run.check_structure(lf, mlf, fm, base):
+        import contextlib
+        with contextlib.ExitStack() as stack:
+            opened = [(cur, stack.enter_context(LogicalFile.LogicalIndex(io.BytesIO(data))), 'this')]
+            if other is not None:
+                opened.append((other, stack.enter_context(LogicalFile.LogicalIndex(io.BytesIO(other['data']))), 'second-index'))
+                classes.add('second-index-open')
+            for f, li, tag in opened:
+                b = dict(f['base'], index=tag)
+                if len(li.logical_files) != len(f['model'].logical_files):
+                    run.violation('structure_vs_model', 'logical-files', '%d logical files, %d encoded' % (
+                        len(li.logical_files), len(f['model'].logical_files)), dict(b, data=f['data']))
+                    continue
+                for k, (lf, mlf) in enumerate(zip(li.logical_files, f['model'].logical_files)):
+                    if not run.check_structure(lf, mlf, f['fm'], b):
                         continue
-                    fas = lf.log_pass.frame_arrays
-                    history, full, partial = [], {}, {}
-                    ncalls = rng.randrange(1, 9)
-                    for _ in range(ncalls):
-                        t = rng.randrange(len(fas))
-                        run.call(lf, fas[t], mlf.frame_types[t], S, base, history, full, partial)
-                    # M7: make sure every frame array that was sub-populated is also fully populated (at the end when not done before)
-                    for t, fa in enumerate(fas):
-                        if id(fa) in partial:
-                            if id(fa) not in full or rng.random() < 0.3:
-                                n_before = len(history)
-                                cnt = lf.populate_frame_array(fa)
-                                history.append({'frame_type': mlf.frame_types[t].name[2].decode('ascii'), 'selector': 'None', 'channels': None,
-                                                'channels_kind': 'all', 'frames': len(mlf.frame_types[t].frames), 'closing': True})
-                                full[id(fa)] = [c.array.copy() for c in fa.channels]
-                                del n_before, cnt
-                            run.compare_partial_full(fa, mlf.frame_types[t], base, history, full[id(fa)], partial[id(fa)])
-                    histories.append(history)
-                    shapes = {(h['frame_type'], h['selector'].split('(')[0], h['channels_kind']) for h in history}
-                    per_type = {}
-                    for s in shapes:
-                        per_type.setdefault(s[0], set()).add(s[1:])
-                    if any(len(v) >= 2 for v in per_type.values()):
-                        shapes_differ = True
+                    units.append({'lf': lf, 'mlf': mlf, 'fas': lf.log_pass.frame_arrays, 'base': dict(b, logical_file=k), 'full': {}, 'partial': {},
+                                  'tag': '%s/lf%d' % (tag, k)})
+            if len(units) >= 2:
+                classes.add('calls-interleaved-over-logical-files')
+            ncalls = sum(rng.randrange(1, 9) for _ in units)
+            for _ in range(ncalls):
+                u = rng.choice(units)
+                t = rng.randrange(len(u['fas']))
+                n0 = len(history)
+                run.call(u['lf'], u['fas'][t], u['mlf'].frame_types[t], S, u['base'], history, u['full'], u['partial'])
+                for h in history[n0:]:
+                    h['on'] = u['tag']
+            # M7: make sure every frame array that was sub-populated is also fully populated (at the end when not done before)
+            for u in units:
+                for t, fa in enumerate(u['fas']):
+                    if id(fa) in u['partial']:
+                        if id(fa) not in u['full'] or rng.random() < 0.3:
+                            u['lf'].populate_frame_array(fa)
+                            history.append({'frame_type': u['mlf'].frame_types[t].name[2].decode('ascii'), 'selector': 'None', 'channels': None,
+                                            'channels_kind': 'all', 'frames': len(u['mlf'].frame_types[t].frames), 'closing': True, 'on': u['tag']})
+                            u['full'][id(fa)] = [c.array.copy() for c in fa.channels]
+                        run.compare_partial_full(fa, u['mlf'].frame_types[t], u['base'], history, u['full'][id(fa)], u['partial'][id(fa)])
+            per_type = {}
+            for h in history:
+                per_type.setdefault((h.get('on'), h['frame_type']), set()).add((h['selector'].split('(')[0], h['channels_kind']))
+            shapes_differ = any(len(v) >= 2 for v in per_type.values())
     except Exception as ex:  # noqa
         run.violation('structure_vs_model', 'index-raised', 'indexing / populating raised %s: %s' % (type(ex).__name__, ex), dict(base, data=data), exc=ex)
-    ncalls = sum(len(h) for h in histories)
-    rec.maxi('max_history_length', max([len(h) for h in histories] or [0]))
-    rec.case([data.hex() if len(data) < 64 else __import__('hashlib').sha256(data).hexdigest(), histories], shapes_differ and multi_dim,
-             classes=sorted(classes), sample={'file_bytes': len(data), 'layout': fm.layout, 'frame_types': base['frame_types'], 'histories': histories})
-    rec.add('histories', len(histories))
-    rec.add('history_ops', ncalls)
+    rec.maxi('max_history_length', len(history))
+    rec.case([data.hex() if len(data) < 64 else __import__('hashlib').sha256(data).hexdigest(), history], shapes_differ and cur['multi_dim'],
+             classes=sorted(classes), sample={'file_bytes': len(data), 'layout': fm.layout, 'frame_types': base['frame_types'], 'history': history[:12]})
+    rec.add('histories', 1)
+    rec.add('history_ops', len(history))
 
 
 def run_shard(ctx, p):
@@ -357,8 +468,11 @@ def run_shard(ctx, p):
     if inst:
         inst()
     run = Run(ctx)
+    prev = None
     for _ in range(p['files']):
-        run_file(run, p['max_frames'])
+        cur = make_file(run, p['max_frames'])
+        run_file(run, cur, other=prev if (prev is not None and ctx.rng.random() < 0.15 and len(prev['data']) < 60000) else None)
+        prev = cur
         if run.nviol > 3 * CAP:
             break
     for name, cnt in contracts.COUNTS.items():
